@@ -39,19 +39,19 @@ Done    == [k |-> "done"]
 Failed(d) == [k |-> "failed", diag |-> d]
 
 \* Control constructors
-E(e)  == [m |-> "E", e |-> e]
-V(s)  == [m |-> "V", s |-> s]
+CE(e)  == [m |-> "E", e |-> e]
+CV(s)  == [m |-> "V", s |-> s]
 St(s) == [m |-> "S", st |-> s]
-X(x)  == [m |-> "X", x |-> x]
+CX(x)  == [m |-> "X", x |-> x]
 XNone == [k |-> "none"]
 XBreak(loc)     == [k |-> "break", loc |-> loc]
 XContinue(loc)  == [k |-> "continue", loc |-> loc]
 XReturn(s, loc) == [k |-> "return", s |-> s, loc |-> loc]
 NoOp == [some |-> FALSE, op |-> "", loc |-> <<>>]
 SomeOp(op, loc) == [some |-> TRUE, op |-> op, loc |-> loc]
-B(lhs, rhs, op, bt, names) ==
+CB(lhs, rhs, op, bt, names) ==
     [m |-> "B", lhs |-> lhs, rhs |-> rhs, op |-> op, bt |-> bt, names |-> names]
-D(names) == [m |-> "D", names |-> names]
+CD(names) == [m |-> "D", names |-> names]
 
 Top     == K[Len(K)]
 Pop     == SubSeq(K, 1, Len(K) - 1)
@@ -97,7 +97,7 @@ IdxNone    == [some |-> FALSE, n |-> 0]
 IdxSome(n) == [some |-> TRUE, n |-> n]
 
 StartSeq(ss, kk) ==        \* control + continuation for "run the statements ss"
-    IF Len(ss) = 0 THEN [c |-> X(XNone), k |-> kk]
+    IF Len(ss) = 0 THEN [c |-> CX(XNone), k |-> kk]
     ELSE [c |-> St(ss[1]), k |-> Append(kk, [f |-> "seq", ss |-> ss, i |-> 1])]
 
 \* Apply an (optional) operator to the current content of a target and the
@@ -109,10 +109,10 @@ Combine(op, cur, rhs) ==
 -----------------------------------------------------------------------------
 (* Expressions *)
 
-E_Null == /\ c.m = "E" /\ c.e.t = "null" /\ Go(V(Slot(VNull)), K)
-E_Bool == /\ c.m = "E" /\ c.e.t = "bool" /\ Go(V(Slot(VBool(c.e.b))), K)
-E_Int  == /\ c.m = "E" /\ c.e.t = "int"  /\ Go(V(Slot(VInt(c.e.n))), K)
-E_Str  == /\ c.m = "E" /\ c.e.t = "str"  /\ Go(V(Slot(VStr(c.e.s))), K)
+E_Null == /\ c.m = "E" /\ c.e.t = "null" /\ Go(CV(Slot(VNull)), K)
+E_Bool == /\ c.m = "E" /\ c.e.t = "bool" /\ Go(CV(Slot(VBool(c.e.b))), K)
+E_Int  == /\ c.m = "E" /\ c.e.t = "int"  /\ Go(CV(Slot(VInt(c.e.n))), K)
+E_Str  == /\ c.m = "E" /\ c.e.t = "str"  /\ Go(CV(Slot(VStr(c.e.s))), K)
 E_IStr == /\ c.m = "E" /\ c.e.t = "istr"
           /\ Go([m |-> "I", e |-> c.e, i |-> 1, acc |-> <<>>], K)
 
@@ -120,13 +120,13 @@ E_Var ==
     /\ c.m = "E" /\ c.e.t = "var"
     /\ LET sid == Lookup(c.e.name) IN
        IF sid = 0 THEN Fail("Undefined", c.e.loc, M_Undefined(c.e.name))
-       ELSE Go(V(scopes[sid].vars[c.e.name].s), K)
+       ELSE Go(CV(scopes[sid].vars[c.e.name].s), K)
 
 E_BinOp == /\ c.m = "E" /\ c.e.t = "binop"
-           /\ Go(E(c.e.l), Push([f |-> "binl", e |-> c.e]))
+           /\ Go(CE(c.e.l), Push([f |-> "binl", e |-> c.e]))
 
 V_BinL == /\ c.m = "V" /\ HasTop("binl")
-          /\ Go(E(Top.e.r), Swap([f |-> "binr", e |-> Top.e, lv |-> c.s.v]))
+          /\ Go(CE(Top.e.r), Swap([f |-> "binr", e |-> Top.e, lv |-> c.s.v]))
 
 \* The operator is applied to the two operand values; its result carries no
 \* provenance (OperatorDropsSource).
@@ -134,19 +134,19 @@ V_BinR ==
     /\ c.m = "V" /\ HasTop("binr")
     /\ LET e == Top.e
            r == ApplyOp(e.op, Top.lv, c.s.v, heap) IN
-       CASE r.r = "val"   -> Go(V(Slot(r.v)), Pop)
-         [] r.r = "alloc" -> GoH(V(Slot(VList(NewId(heap)))), Pop, Append(heap, r.cell))
+       CASE r.r = "val"   -> Go(CV(Slot(r.v)), Pop)
+         [] r.r = "alloc" -> GoH(CV(Slot(VList(NewId(heap)))), Pop, Append(heap, r.cell))
          [] r.r = "err"   -> FailIn(Pop, r.kind, e.oploc, r.msg)
 
 \* List literals and argument lists share the item loop: items are evaluated
 \* left to right; a spread item must be a list and contributes its slots.
 ItemsStep(e, items, i, acc, purpose, kk) ==
     IF i <= Len(items)
-    THEN Go(E(items[i].e),
+    THEN Go(CE(items[i].e),
             Append(kk, [f |-> "items", e |-> e, i |-> i, acc |-> acc, purpose |-> purpose]))
     ELSE IF purpose = "list"
-    THEN GoH(V(Slot(VList(NewId(heap)))), kk, Append(heap, CList(acc)))
-    ELSE Go(E(e.f), Append(kk, [f |-> "callee", e |-> e, args |-> acc]))
+    THEN GoH(CV(Slot(VList(NewId(heap)))), kk, Append(heap, CList(acc)))
+    ELSE Go(CE(e.f), Append(kk, [f |-> "callee", e |-> e, args |-> acc]))
 
 E_List ==
     /\ c.m = "E" /\ c.e.t = "list"
@@ -170,12 +170,12 @@ V_Items ==
 
 \* Index read: the indexed value first, then (if it is indexable) the index.
 E_Index == /\ c.m = "E" /\ c.e.t = "index"
-           /\ Go(E(c.e.e), Push([f |-> "idxsrc", e |-> c.e]))
+           /\ Go(CE(c.e.e), Push([f |-> "idxsrc", e |-> c.e]))
 
 V_IdxSrc ==
     /\ c.m = "V" /\ HasTop("idxsrc")
     /\ IF c.s.v.k \in {"string", "list", "object"}
-       THEN Go(E(Top.e.i), Swap([f |-> "idxloc", e |-> Top.e, src |-> c.s]))
+       THEN Go(CE(Top.e.i), Swap([f |-> "idxloc", e |-> Top.e, src |-> c.s]))
        ELSE FailIn(Pop, "ValueNotIndexable", Top.e.loc, M_ValueNotIndexable)
 
 V_IdxLoc ==
@@ -190,7 +190,7 @@ V_IdxLoc ==
            THEN FailIn(Pop, "StringConstructionFailed", e.i.loc, M_StringConstructionFailed("property"))
            ELSE IF iv.s \notin DOMAIN heap[src.id].props
            THEN FailIn(Pop, "PropNotFound", e.loc, M_PropNotFound(iv.s))
-           ELSE Go(V(SlotS(heap[src.id].props[iv.s].v, src)), Pop)      \* PropReadSetsSource
+           ELSE Go(CV(SlotS(heap[src.id].props[iv.s].v, src)), Pop)      \* PropReadSetsSource
        ELSE
            IF iv.k # "int"
            THEN FailIn(Pop, "IncorrectType", e.i.loc, M_IncorrectType("index", "int", iv))
@@ -199,22 +199,22 @@ V_IdxLoc ==
            ELSE IF src.k = "string" THEN
                IF iv.n >= Len(src.s)
                THEN FailIn(Pop, "OutOfStringBounds", e.loc, M_OutOfStringBounds(iv.n))
-               ELSE Go(V(Slot(VStr(<<src.s[iv.n + 1]>>))), Pop)
+               ELSE Go(CV(Slot(VStr(<<src.s[iv.n + 1]>>))), Pop)
            ELSE
                IF iv.n >= Len(heap[src.id].items)
                THEN FailIn(Pop, "OutOfListBounds", e.loc, M_OutOfListBounds(iv.n))
-               ELSE Go(V(heap[src.id].items[iv.n + 1]), Pop)   \* the stored slot, provenance kept
+               ELSE Go(CV(heap[src.id].items[iv.n + 1]), Pop)   \* the stored slot, provenance kept
 
 \* Range-index read: start, end (each an int >= 0), then the indexed value.
 RIdxAfterStart(e, start, kk) ==
     IF e.end.t # "none"
-    THEN Go(E(e.end), Append(kk, [f |-> "riend", e |-> e, start |-> start]))
-    ELSE Go(E(e.e), Append(kk, [f |-> "risrc", e |-> e, start |-> start, end |-> IdxNone]))
+    THEN Go(CE(e.end), Append(kk, [f |-> "riend", e |-> e, start |-> start]))
+    ELSE Go(CE(e.e), Append(kk, [f |-> "risrc", e |-> e, start |-> start, end |-> IdxNone]))
 
 E_RIndex ==
     /\ c.m = "E" /\ c.e.t = "rindex"
     /\ IF c.e.start.t # "none"
-       THEN Go(E(c.e.start), Push([f |-> "ristart", e |-> c.e]))
+       THEN Go(CE(c.e.start), Push([f |-> "ristart", e |-> c.e]))
        ELSE RIdxAfterStart(c.e, IdxNone, K)
 
 IndexCheck(v, loc, ctx, ok(_)) ==     \* an index / bound must be an int >= 0
@@ -232,7 +232,7 @@ V_RIEnd ==
     /\ c.m = "V" /\ HasTop("riend")
     /\ LET e == Top.e
            st == Top.start
-           Cont(n) == Go(E(e.e), Swap([f |-> "risrc", e |-> e, start |-> st, end |-> IdxSome(n)])) IN
+           Cont(n) == Go(CE(e.e), Swap([f |-> "risrc", e |-> e, start |-> st, end |-> IdxSome(n)])) IN
        IndexCheck(c.s.v, e.end.loc, Pop, Cont)
 
 V_RISrc ==
@@ -243,25 +243,25 @@ V_RISrc ==
        IF v.k = "string" THEN
            LET b == IF Top.end.some THEN Top.end.n ELSE Len(v.s) IN
            IF a <= b /\ b <= Len(v.s)
-           THEN Go(V(Slot(VStr(SubSeq(v.s, a + 1, b)))), Pop)
+           THEN Go(CV(Slot(VStr(SubSeq(v.s, a + 1, b)))), Pop)
            ELSE FailIn(Pop, "RangeOutOfStringBounds", e.loc, M_RangeOutOfStringBounds(a, b))
        ELSE IF v.k = "list" THEN
            LET xs == heap[v.id].items
                b == IF Top.end.some THEN Top.end.n ELSE Len(xs) IN
            IF a <= b /\ b <= Len(xs)
-           THEN GoH(V(Slot(VList(NewId(heap)))), Pop, Append(heap, CList(SubSeq(xs, a + 1, b))))
+           THEN GoH(CV(Slot(VList(NewId(heap)))), Pop, Append(heap, CList(SubSeq(xs, a + 1, b))))
            ELSE FailIn(Pop, "RangeOutOfListBounds", e.loc, M_RangeOutOfListBounds(a, b))
        ELSE FailIn(Pop, "ValueNotRangeIndexable", e.loc, M_ValueNotRangeIndexable)
 
 \* a .. b
 E_Range == /\ c.m = "E" /\ c.e.t = "range"
-           /\ Go(E(c.e.start), Push([f |-> "rgstart", e |-> c.e]))
+           /\ Go(CE(c.e.start), Push([f |-> "rgstart", e |-> c.e]))
 
 V_RgStart ==
     /\ c.m = "V" /\ HasTop("rgstart")
     /\ IF c.s.v.k # "int"
        THEN FailIn(Pop, "IncorrectType", Top.e.start.loc, M_IncorrectType("range start", "int", c.s.v))
-       ELSE Go(E(Top.e.end), Swap([f |-> "rgend", e |-> Top.e, start |-> c.s.v.n]))
+       ELSE Go(CE(Top.e.end), Swap([f |-> "rgend", e |-> Top.e, start |-> c.s.v.n]))
 
 V_RgEnd ==
     /\ c.m = "V" /\ HasTop("rgend")
@@ -270,7 +270,7 @@ V_RgEnd ==
        ELSE LET a == Top.start
                 b == c.s.v.n
                 n == IF b > a THEN b - a ELSE 0 IN
-            GoH(V(Slot(VList(NewId(heap)))), Pop,
+            GoH(CV(Slot(VList(NewId(heap)))), Pop,
                 Append(heap, CList([i \in 1 .. n |-> Slot(VInt(a + i - 1))])))
 
 \* Object literal: entries in source order, later entries replace earlier ones.
@@ -279,10 +279,10 @@ ObjC(e, i, acc) == [m |-> "O", e |-> e, i |-> i, acc |-> acc]
 E_Object == /\ c.m = "E" /\ c.e.t = "object" /\ Go(ObjC(c.e, 1, <<>>), K)
 
 O_Done == /\ c.m = "O" /\ c.i > Len(c.e.props)
-          /\ GoH(V(Slot(VObj(NewId(heap)))), K, Append(heap, CObj(c.acc)))
+          /\ GoH(CV(Slot(VObj(NewId(heap)))), K, Append(heap, CObj(c.acc)))
 
 O_Pair == /\ c.m = "O" /\ c.i <= Len(c.e.props) /\ c.e.props[c.i].t = "pair"
-          /\ Go(E(c.e.props[c.i].name), Push([f |-> "objname", e |-> c.e, i |-> c.i, acc |-> c.acc]))
+          /\ Go(CE(c.e.props[c.i].name), Push([f |-> "objname", e |-> c.e, i |-> c.i, acc |-> c.acc]))
 
 V_ObjName ==
     /\ c.m = "V" /\ HasTop("objname")
@@ -291,7 +291,7 @@ V_ObjName ==
        THEN FailIn(Pop, "IncorrectType", p.name.loc, M_IncorrectType("property name", "string", c.s.v))
        ELSE IF ~ValidUtf8(c.s.v.s)
        THEN FailIn(Pop, "StringConstructionFailed", p.name.loc, M_StringConstructionFailed("property name"))
-       ELSE Go(E(p.value),
+       ELSE Go(CE(p.value),
                Swap([f |-> "objvalue", e |-> Top.e, i |-> Top.i, acc |-> Top.acc, name |-> c.s.v.s]))
 
 V_ObjValue ==
@@ -304,7 +304,7 @@ O_Single ==
        IF p.collect
        THEN Fail("ObjectCollectOutsideDestructure", c.e.loc, M_ObjectCollectOutsideDestructure)
        ELSE IF p.spread
-       THEN Go(E(p.e), Push([f |-> "objspread", e |-> c.e, i |-> c.i, acc |-> c.acc]))
+       THEN Go(CE(p.e), Push([f |-> "objspread", e |-> c.e, i |-> c.i, acc |-> c.acc]))
        ELSE IF p.e.t # "var"
        THEN Fail("ObjectPropShorthandNotVar", p.e.loc, M_ObjectPropShorthandNotVar)
        ELSE LET sid == Lookup(p.e.name) IN
@@ -320,7 +320,7 @@ V_ObjSpread ==
 
 \* e.name and e->name
 E_Prop == /\ c.m = "E" /\ c.e.t = "prop"
-          /\ Go(E(c.e.e), Push([f |-> "propsrc", e |-> c.e]))
+          /\ Go(CE(c.e.e), Push([f |-> "propsrc", e |-> c.e]))
 
 TypeFns(v) ==        \* the type-function namespace of a value: name -> builtin name
     CASE v.k = "bool"    -> (N_type :> BN_bool_type)
@@ -339,30 +339,30 @@ V_PropSrc ==
            IF v.k = "null" THEN FailIn(Pop, "TypeFunctionOnNull", e.loc, M_TypeFunctionOnNull)
            ELSE IF e.name \notin DOMAIN TypeFns(v)
            THEN FailIn(Pop, "TypeFunctionNotFound", e.loc, M_TypeFunctionNotFound(e.name, v))
-           ELSE Go(V(SlotS(VBuiltin(TypeFns(v)[e.name]), v)), Pop)
+           ELSE Go(CV(SlotS(VBuiltin(TypeFns(v)[e.name]), v)), Pop)
        ELSE
            IF v.k # "object"
            THEN FailIn(Pop, "PropAccessOnNonObject", e.loc, M_PropAccessOnNonObject(v))
            ELSE IF e.name \notin DOMAIN heap[v.id].props
            THEN FailIn(Pop, "PropNotFound", e.loc, M_PropNotFound(e.name))
-           ELSE Go(V(SlotS(heap[v.id].props[e.name].v, v)), Pop)        \* PropReadSetsSource
+           ELSE Go(CV(SlotS(heap[v.id].props[e.name].v, v)), Pop)        \* PropReadSetsSource
 
 \* fn (...) { ... }  captures the current chain by reference.
 E_Func ==
     /\ c.m = "E" /\ c.e.t = "func"
-    /\ GoH(V(Slot(VFn(NewId(heap)))), K,
+    /\ GoH(CV(Slot(VFn(NewId(heap)))), K,
            Append(heap, CFn(NoName, c.e.params, c.e.collect, c.e.body, env)))
 
 \* Interpolated string: pieces and slot values concatenated in order.
 I_Lit  == /\ c.m = "I" /\ c.i <= Len(c.e.parts) /\ c.e.parts[c.i].t = "lit"
           /\ Go([c EXCEPT !.i = @ + 1, !.acc = @ \o c.e.parts[c.i].s], K)
 I_Slot == /\ c.m = "I" /\ c.i <= Len(c.e.parts) /\ c.e.parts[c.i].t = "slot"
-          /\ Go(E(c.e.parts[c.i].e), Push([f |-> "interp", e |-> c.e, i |-> c.i, acc |-> c.acc]))
+          /\ Go(CE(c.e.parts[c.i].e), Push([f |-> "interp", e |-> c.e, i |-> c.i, acc |-> c.acc]))
 I_BadSlot ==
     /\ c.m = "I" /\ c.i <= Len(c.e.parts) /\ c.e.parts[c.i].t = "badslot"
     /\ Fail("InterpolateStringParseFailed", SlotLoc(c.e.loc, c.e.parts[c.i].off, c.i),
             M_InterpolateStringParseFailed)
-I_Done == /\ c.m = "I" /\ c.i > Len(c.e.parts) /\ Go(V(Slot(VStr(c.acc))), K)
+I_Done == /\ c.m = "I" /\ c.i > Len(c.e.parts) /\ Go(CV(Slot(VStr(c.acc))), K)
 
 V_Interp ==
     /\ c.m = "V" /\ HasTop("interp")
@@ -387,7 +387,7 @@ CallBuiltin(e, fv, args) ==
         IF nargs # 1 THEN FailIn(Pop, "BuiltinArgs", e.loc, M_BuiltinArgs("print", 1, nargs))
         ELSE IF hasThis THEN FailIn(Pop, "Dev", e.loc, M_Dev("'this' shouldn't exist"))
         ELSE LET r == Render(args[1].v, heap) IN
-             IF r.ok THEN Upd(V(Slot(VNull)), Pop, env, scopes, heap, Append(out, r.b))
+             IF r.ok THEN Upd(CV(Slot(VNull)), Pop, env, scopes, heap, Append(out, r.b))
              ELSE IF r.why = "utf8" THEN FailIn(Pop, "PrintUtf8", e.loc, M_PrintUtf8)
              ELSE FailIn(Pop, "PrintCyclic", e.loc, M_PrintCyclic)
     ELSE IF name = BN_str_len THEN
@@ -395,11 +395,11 @@ CallBuiltin(e, fv, args) ==
         ELSE IF ~hasThis THEN FailIn(Pop, "Dev", e.loc, M_Dev("'this' doesn't exist"))
         ELSE IF fv.src.k # "string" THEN FailIn(Pop, "Dev", e.loc, M_Dev("dev err: expected 'string'"))
         ELSE IF ~ValidUtf8(fv.src.s) THEN FailIn(Pop, "ThisUtf8", e.loc, M_ThisUtf8)
-        ELSE Go(V(Slot(VInt(Len(fv.src.s)))), Pop)
+        ELSE Go(CV(Slot(VInt(Len(fv.src.s)))), Pop)
     ELSE \* the `type` function of every namespace
         IF nargs # 0 THEN FailIn(Pop, "BuiltinArgs", e.loc, M_BuiltinArgs("type", 0, nargs))
         ELSE IF ~hasThis THEN FailIn(Pop, "Dev", e.loc, M_Dev("'this' doesn't exist"))
-        ELSE Go(V(Slot(VStr(TypeNameBytes(fv.src)))), Pop)
+        ELSE Go(CV(Slot(VStr(TypeNameBytes(fv.src)))), Pop)
 
 \* A user function: the count is checked, then a fresh scope is pushed on the
 \* function's *definition* chain, the parameters are declared in it one by
@@ -437,7 +437,7 @@ V_Callee ==
          [] OTHER               -> FailIn(Pop, "CannotCallNonFunc", e.loc, M_CannotCallNonFunc(c.s.v))
 
 P_Next == /\ c.m = "P" /\ c.i <= Len(c.bs)
-          /\ Go(B(c.bs[c.i].p, c.bs[c.i].s, NoOp, "decl", {}),
+          /\ Go(CB(c.bs[c.i].p, c.bs[c.i].s, NoOp, "decl", {}),
                 Push([f |-> "param", bs |-> c.bs, i |-> c.i, body |-> c.body]))
 D_Param == /\ c.m = "D" /\ HasTop("param")
            /\ Go([m |-> "P", bs |-> Top.bs, i |-> Top.i + 1, body |-> Top.body], Pop)
@@ -448,8 +448,8 @@ P_Done == /\ c.m = "P" /\ c.i > Len(c.bs)
 \* end yields null; a stray break/continue is an error (StrayJumpIsError).
 X_Call ==
     /\ c.m = "X" /\ HasTop("call")
-    /\ CASE c.x.k = "none"     -> Upd(V(Slot(VNull)), Pop, Top.env, scopes, heap, out)
-         [] c.x.k = "return"   -> Upd(V(c.x.s), Pop, Top.env, scopes, heap, out)
+    /\ CASE c.x.k = "none"     -> Upd(CV(Slot(VNull)), Pop, Top.env, scopes, heap, out)
+         [] c.x.k = "return"   -> Upd(CV(c.x.s), Pop, Top.env, scopes, heap, out)
          [] c.x.k = "break"    -> Fail("BreakOutsideLoop", c.x.loc, M_BreakOutsideLoop)
          [] c.x.k = "continue" -> Fail("ContinueOutsideLoop", c.x.loc, M_ContinueOutsideLoop)
 
@@ -479,35 +479,35 @@ S_Block == /\ c.m = "S" /\ c.st.t = "block"
 \* A bare block is transparent to break/continue/return (CrossBlock).
 X_BlockStmt == /\ c.m = "X" /\ HasTop("blockstmt") /\ Go(c, Pop)
 
-S_Expr == /\ c.m = "S" /\ c.st.t = "expr" /\ Go(E(c.st.e), Push([f |-> "exprstmt"]))
-V_ExprStmt == /\ c.m = "V" /\ HasTop("exprstmt") /\ Go(X(XNone), Pop)
+S_Expr == /\ c.m = "S" /\ c.st.t = "expr" /\ Go(CE(c.st.e), Push([f |-> "exprstmt"]))
+V_ExprStmt == /\ c.m = "V" /\ HasTop("exprstmt") /\ Go(CX(XNone), Pop)
 
 \* Declaration / assignment / op-assignment: right-hand side first, then the
 \* target (Decision_RhsBeforeTarget).
 S_Declare == /\ c.m = "S" /\ c.st.t = "declare"
-             /\ Go(E(c.st.rhs), Push([f |-> "bindrhs", st |-> c.st]))
+             /\ Go(CE(c.st.rhs), Push([f |-> "bindrhs", st |-> c.st]))
 S_Assign == /\ c.m = "S" /\ c.st.t = "assign"
-            /\ Go(E(c.st.rhs), Push([f |-> "bindrhs", st |-> c.st]))
+            /\ Go(CE(c.st.rhs), Push([f |-> "bindrhs", st |-> c.st]))
 S_OpAssign == /\ c.m = "S" /\ c.st.t = "opassign"
-              /\ Go(E(c.st.rhs), Push([f |-> "bindrhs", st |-> c.st]))
+              /\ Go(CE(c.st.rhs), Push([f |-> "bindrhs", st |-> c.st]))
 
 V_BindRhs ==
     /\ c.m = "V" /\ HasTop("bindrhs")
     /\ LET st == Top.st IN
-       Go(B(st.lhs, c.s,
+       Go(CB(st.lhs, c.s,
             IF st.t = "opassign" THEN SomeOp(st.op, st.oploc) ELSE NoOp,
             IF st.t = "declare" THEN "decl" ELSE "assign", {}),
           Swap([f |-> "bindroot"]))
 
-D_BindRoot == /\ c.m = "D" /\ HasTop("bindroot") /\ Go(X(XNone), Pop)
+D_BindRoot == /\ c.m = "D" /\ HasTop("bindroot") /\ Go(CX(XNone), Pop)
 
 \* if / else if / else: conditions in order until the first true one.
 IfC(st, i) == [m |-> "IF", st |-> st, i |-> i]
 S_If == /\ c.m = "S" /\ c.st.t = "if" /\ Go(IfC(c.st, 1), K)
 IF_Cond == /\ c.m = "IF" /\ c.i <= Len(c.st.branches)
-           /\ Go(E(c.st.branches[c.i].cond), Push([f |-> "ifcond", st |-> c.st, i |-> c.i]))
+           /\ Go(CE(c.st.branches[c.i].cond), Push([f |-> "ifcond", st |-> c.st, i |-> c.i]))
 IF_Else == /\ c.m = "IF" /\ c.i > Len(c.st.branches)
-           /\ IF c.st.els.some THEN EnterScope(c.st.els.body, K) ELSE Go(X(XNone), K)
+           /\ IF c.st.els.some THEN EnterScope(c.st.els.body, K) ELSE Go(CX(XNone), K)
 V_IfCond ==
     /\ c.m = "V" /\ HasTop("ifcond")
     /\ LET br == Top.st.branches[Top.i] IN
@@ -518,18 +518,18 @@ V_IfCond ==
 
 \* while: the condition is evaluated before every iteration (WhileRetest).
 S_While == /\ c.m = "S" /\ c.st.t = "while"
-           /\ Go(E(c.st.cond), Push([f |-> "whilecond", st |-> c.st]))
+           /\ Go(CE(c.st.cond), Push([f |-> "whilecond", st |-> c.st]))
 V_WhileCond ==
     /\ c.m = "V" /\ HasTop("whilecond")
     /\ IF c.s.v.k # "bool"
        THEN FailIn(Pop, "IncorrectType", Top.st.cond.loc, M_IncorrectType("condition", "bool", c.s.v))
        ELSE IF c.s.v.b THEN EnterScope(Top.st.body, Swap([f |-> "whilebody", st |-> Top.st]))
-       ELSE Go(X(XNone), Pop)
+       ELSE Go(CX(XNone), Pop)
 X_WhileBody ==
     /\ c.m = "X" /\ HasTop("whilebody")
     /\ CASE c.x.k \in {"none", "continue"} ->
-                Go(E(Top.st.cond), Swap([f |-> "whilecond", st |-> Top.st]))
-         [] c.x.k = "break"  -> Go(X(XNone), Pop)
+                Go(CE(Top.st.cond), Swap([f |-> "whilecond", st |-> Top.st]))
+         [] c.x.k = "break"  -> Go(CX(XNone), Pop)
          [] c.x.k = "return" -> Go(c, Pop)
 
 \* for: the iterable is evaluated once and its pairs are snapshotted; each
@@ -537,7 +537,7 @@ X_WhileBody ==
 \* fresh two-element list [key, value] and in which the body runs.
 ForC(st, pairs, i) == [m |-> "F", st |-> st, pairs |-> pairs, i |-> i]
 S_For == /\ c.m = "S" /\ c.st.t = "for"
-         /\ Go(E(c.st.iter), Push([f |-> "foriter", st |-> c.st]))
+         /\ Go(CE(c.st.iter), Push([f |-> "foriter", st |-> c.st]))
 V_ForIter ==
     /\ c.m = "V" /\ HasTop("foriter")
     /\ IF Iterable(c.s.v)
@@ -547,26 +547,26 @@ F_Next ==
     /\ c.m = "F" /\ c.i <= Len(c.pairs)
     /\ LET pid == NewId(heap)
            sid == NewId(scopes) IN
-       Upd(B(c.st.lhs, Slot(VList(pid)), NoOp, "decl", {}),
+       Upd(CB(c.st.lhs, Slot(VList(pid)), NoOp, "decl", {}),
            K \o <<[f |-> "forbody", st |-> c.st, pairs |-> c.pairs, i |-> c.i],
                   [f |-> "scope", env |-> env],
                   [f |-> "forbind", st |-> c.st]>>,
            Append(env, sid), Append(scopes, EmptyScope),
            Append(heap, CList(<<c.pairs[c.i][1], c.pairs[c.i][2]>>)), out)
-F_Done == /\ c.m = "F" /\ c.i > Len(c.pairs) /\ Go(X(XNone), K)
+F_Done == /\ c.m = "F" /\ c.i > Len(c.pairs) /\ Go(CX(XNone), K)
 D_ForBind == /\ c.m = "D" /\ HasTop("forbind")
              /\ LET s == StartSeq(Top.st.body, Pop) IN Go(s.c, s.k)
 X_ForBody ==
     /\ c.m = "X" /\ HasTop("forbody")
     /\ CASE c.x.k \in {"none", "continue"} -> Go(ForC(Top.st, Top.pairs, Top.i + 1), Pop)
-         [] c.x.k = "break"  -> Go(X(XNone), Pop)
+         [] c.x.k = "break"  -> Go(CX(XNone), Pop)
          [] c.x.k = "return" -> Go(c, Pop)
 
-S_Break    == /\ c.m = "S" /\ c.st.t = "break"    /\ Go(X(XBreak(c.st.loc)), K)
-S_Continue == /\ c.m = "S" /\ c.st.t = "continue" /\ Go(X(XContinue(c.st.loc)), K)
+S_Break    == /\ c.m = "S" /\ c.st.t = "break"    /\ Go(CX(XBreak(c.st.loc)), K)
+S_Continue == /\ c.m = "S" /\ c.st.t = "continue" /\ Go(CX(XContinue(c.st.loc)), K)
 S_Return   == /\ c.m = "S" /\ c.st.t = "return"
-              /\ Go(E(c.st.e), Push([f |-> "retexpr", st |-> c.st]))
-V_RetExpr  == /\ c.m = "V" /\ HasTop("retexpr") /\ Go(X(XReturn(c.s, Top.st.loc)), Pop)
+              /\ Go(CE(c.st.e), Push([f |-> "retexpr", st |-> c.st]))
+V_RetExpr  == /\ c.m = "V" /\ HasTop("retexpr") /\ Go(CX(XReturn(c.s, Top.st.loc)), Pop)
 
 \* fn name(...) {...}: the parameter patterns of a *named* function are
 \* validated at the declaration (Decision_ParamValidation: breadth-first, and
@@ -603,11 +603,11 @@ S_Fn ==
            fid == NewId(heap)
            heap2 == Append(heap, CFn(SomeName(st.name), st.params, st.collect, st.body, env)) IN
        IF ~r.ok THEN Fail(r.kind, r.loc, r.msg)
-       ELSE IF st.name = N_us THEN GoH(X(XNone), K, heap2)
+       ELSE IF st.name = N_us THEN GoH(CX(XNone), K, heap2)
        ELSE IF st.name \in DOMAIN scopes[InnerScope].vars
        THEN Fail("AlreadyInScope", st.nameloc,
                  M_AlreadyInScope(st.name, scopes[InnerScope].vars[st.name].loc))
-       ELSE Upd(X(XNone), K, env,
+       ELSE Upd(CX(XNone), K, env,
                 Declared(InnerScope, st.name, Slot(VFn(fid)), st.nameloc), heap2, out)
 
 \* End of the program: a stray escape is an error at the statement's position.
@@ -631,36 +631,36 @@ B_Var ==
     /\ c.m = "B" /\ c.lhs.t = "var"
     /\ LET name == c.lhs.name
            loc == c.lhs.loc IN
-       IF name = N_us THEN Go(D(c.names), K)                        \* UnderscoreDiscards
+       IF name = N_us THEN Go(CD(c.names), K)                        \* UnderscoreDiscards
        ELSE IF name \in c.names
        THEN Fail("AlreadyInBinding", loc, M_AlreadyInBinding(name))
        ELSE IF c.bt = "decl" THEN
            IF name \in DOMAIN scopes[InnerScope].vars
            THEN Fail("AlreadyInScope", loc,
                      M_AlreadyInScope(name, scopes[InnerScope].vars[name].loc))
-           ELSE Upd(D(c.names \cup {name}), K, env,
+           ELSE Upd(CD(c.names \cup {name}), K, env,
                     Declared(InnerScope, name, c.rhs, loc), heap, out)
        ELSE
            LET sid == Lookup(name) IN
            IF sid = 0 THEN Fail("Undefined", loc, M_Undefined(name))
            ELSE LET r == Combine(c.op, scopes[sid].vars[name].s, c.rhs) IN
-                CASE r.r = "keep"  -> Upd(D(c.names \cup {name}), K, env,
+                CASE r.r = "keep"  -> Upd(CD(c.names \cup {name}), K, env,
                                           Assigned(sid, name, c.rhs), heap, out)
-                  [] r.r = "val"   -> Upd(D(c.names \cup {name}), K, env,
+                  [] r.r = "val"   -> Upd(CD(c.names \cup {name}), K, env,
                                           Assigned(sid, name, Slot(r.v)), heap, out)
-                  [] r.r = "alloc" -> Upd(D(c.names \cup {name}), K, env,
+                  [] r.r = "alloc" -> Upd(CD(c.names \cup {name}), K, env,
                                           Assigned(sid, name, Slot(VList(NewId(heap)))),
                                           Append(heap, r.cell), out)
                   [] r.r = "err"   -> Fail(r.kind, c.op.loc, r.msg)
 
 \* xs[i] = v / o[k] = v
 B_Index == /\ c.m = "B" /\ c.lhs.t = "index"
-           /\ Go(E(c.lhs.e), Push([f |-> "bidxsrc", b |-> c]))
+           /\ Go(CE(c.lhs.e), Push([f |-> "bidxsrc", b |-> c]))
 
 V_BIdxSrc ==
     /\ c.m = "V" /\ HasTop("bidxsrc")
     /\ IF c.s.v.k \in {"list", "object"}
-       THEN Go(E(Top.b.lhs.i), Swap([f |-> "bidxloc", b |-> Top.b, src |-> c.s.v]))
+       THEN Go(CE(Top.b.lhs.i), Swap([f |-> "bidxloc", b |-> Top.b, src |-> c.s.v]))
        ELSE FailIn(Pop, "ValueNotIndexAssignable", Top.b.lhs.loc, M_ValueNotIndexAssignable)
 
 \* Writing slot `new` over a list element or an object property.
@@ -680,9 +680,9 @@ V_BIdxLoc ==
            ELSE IF iv.n >= Len(heap[src.id].items)
            THEN FailIn(Pop, "OutOfListBounds", lhs.loc, M_OutOfListBounds(iv.n))
            ELSE LET r == Combine(b.op, heap[src.id].items[iv.n + 1], b.rhs) IN
-                CASE r.r = "keep"  -> GoH(D(b.names), Pop, StoreList(src.id, iv.n + 1, b.rhs, heap))
-                  [] r.r = "val"   -> GoH(D(b.names), Pop, StoreList(src.id, iv.n + 1, Slot(r.v), heap))
-                  [] r.r = "alloc" -> GoH(D(b.names), Pop,
+                CASE r.r = "keep"  -> GoH(CD(b.names), Pop, StoreList(src.id, iv.n + 1, b.rhs, heap))
+                  [] r.r = "val"   -> GoH(CD(b.names), Pop, StoreList(src.id, iv.n + 1, Slot(r.v), heap))
+                  [] r.r = "alloc" -> GoH(CD(b.names), Pop,
                                           StoreList(src.id, iv.n + 1, Slot(VList(NewId(heap))),
                                                     Append(heap, r.cell)))
                   [] r.r = "err"   -> FailIn(Pop, r.kind, b.op.loc, r.msg)
@@ -693,21 +693,21 @@ V_BIdxLoc ==
            THEN FailIn(Pop, "StringConstructionFailed", lhs.i.loc, M_StringConstructionFailed("property"))
            ELSE IF iv.s \in DOMAIN heap[src.id].props THEN
                LET r == Combine(b.op, heap[src.id].props[iv.s], b.rhs) IN
-               CASE r.r = "keep"  -> GoH(D(b.names), Pop, StoreProp(src.id, iv.s, b.rhs, heap))
-                 [] r.r = "val"   -> GoH(D(b.names), Pop, StoreProp(src.id, iv.s, Slot(r.v), heap))
-                 [] r.r = "alloc" -> GoH(D(b.names), Pop,
+               CASE r.r = "keep"  -> GoH(CD(b.names), Pop, StoreProp(src.id, iv.s, b.rhs, heap))
+                 [] r.r = "val"   -> GoH(CD(b.names), Pop, StoreProp(src.id, iv.s, Slot(r.v), heap))
+                 [] r.r = "alloc" -> GoH(CD(b.names), Pop,
                                          StoreProp(src.id, iv.s, Slot(VList(NewId(heap))),
                                                    Append(heap, r.cell)))
                  [] r.r = "err"   -> FailIn(Pop, r.kind, b.op.loc, r.msg)
            ELSE IF b.op.some
            THEN FailIn(Pop, "OpOnUndefinedIndex", lhs.loc, M_Undefined(iv.s))
-           ELSE GoH(D(b.names), Pop, StoreProp(src.id, iv.s, b.rhs, heap))      \* NewKeyIffAbsent
+           ELSE GoH(CD(b.names), Pop, StoreProp(src.id, iv.s, b.rhs, heap))      \* NewKeyIffAbsent
 
 \* o.name = v
 B_Prop ==
     /\ c.m = "B" /\ c.lhs.t = "prop"
     /\ IF c.lhs.tp THEN Fail("AssignToTypeProp", c.lhs.loc, M_AssignToTypeProp)
-       ELSE Go(E(c.lhs.e), Push([f |-> "bpropsrc", b |-> c]))
+       ELSE Go(CE(c.lhs.e), Push([f |-> "bpropsrc", b |-> c]))
 
 V_BPropSrc ==
     /\ c.m = "V" /\ HasTop("bpropsrc")
@@ -718,15 +718,15 @@ V_BPropSrc ==
        THEN FailIn(Pop, "PropAccessOnNonObject", lhs.loc, M_PropAccessOnNonObject(v))
        ELSE IF lhs.name \in DOMAIN heap[v.id].props THEN
            LET r == Combine(b.op, heap[v.id].props[lhs.name], b.rhs) IN
-           CASE r.r = "keep"  -> GoH(D(b.names), Pop, StoreProp(v.id, lhs.name, b.rhs, heap))
-             [] r.r = "val"   -> GoH(D(b.names), Pop, StoreProp(v.id, lhs.name, Slot(r.v), heap))
-             [] r.r = "alloc" -> GoH(D(b.names), Pop,
+           CASE r.r = "keep"  -> GoH(CD(b.names), Pop, StoreProp(v.id, lhs.name, b.rhs, heap))
+             [] r.r = "val"   -> GoH(CD(b.names), Pop, StoreProp(v.id, lhs.name, Slot(r.v), heap))
+             [] r.r = "alloc" -> GoH(CD(b.names), Pop,
                                      StoreProp(v.id, lhs.name, Slot(VList(NewId(heap))),
                                                Append(heap, r.cell)))
              [] r.r = "err"   -> FailIn(Pop, r.kind, b.op.loc, r.msg)
        ELSE IF b.op.some
        THEN FailIn(Pop, "OpOnUndefinedProp", lhs.loc, M_Undefined(lhs.name))
-       ELSE GoH(D(b.names), Pop, StoreProp(v.id, lhs.name, b.rhs, heap))
+       ELSE GoH(CD(b.names), Pop, StoreProp(v.id, lhs.name, b.rhs, heap))
 
 \* xs[a:b] = ys : the list, the kind of ys (a list's slots, or one 1-byte
 \* string per byte of a string), a, b, then the domain checks in order, then
@@ -735,7 +735,7 @@ V_BPropSrc ==
 B_RIndex ==
     /\ c.m = "B" /\ c.lhs.t = "rindex"
     /\ IF c.op.some THEN Fail("OpOnRangeIndex", c.lhs.loc, M_OpOnRangeIndex)
-       ELSE Go(E(c.lhs.e), Push([f |-> "brisrc", b |-> c]))
+       ELSE Go(CE(c.lhs.e), Push([f |-> "brisrc", b |-> c]))
 
 RC(b, lid, ritems, stage, start, end) ==
     [m |-> "R", b |-> b, lid |-> lid, ritems |-> ritems, stage |-> stage, start |-> start, end |-> end]
@@ -756,7 +756,7 @@ V_BRISrc ==
 R_Start ==
     /\ c.m = "R" /\ c.stage = "start"
     /\ IF c.b.lhs.start.t = "none" THEN Go([c EXCEPT !.stage = "end", !.start = 0], K)
-       ELSE Go(E(c.b.lhs.start), Push([f |-> "bristart", r |-> c]))
+       ELSE Go(CE(c.b.lhs.start), Push([f |-> "bristart", r |-> c]))
 V_BRIStart ==
     /\ c.m = "V" /\ HasTop("bristart")
     /\ LET r == Top.r
@@ -766,7 +766,7 @@ R_End ==
     /\ c.m = "R" /\ c.stage = "end"
     /\ IF c.b.lhs.end.t = "none"
        THEN Go([c EXCEPT !.stage = "fin", !.end = Len(heap[c.lid].items)], K)
-       ELSE Go(E(c.b.lhs.end), Push([f |-> "briend", r |-> c]))
+       ELSE Go(CE(c.b.lhs.end), Push([f |-> "briend", r |-> c]))
 V_BRIEnd ==
     /\ c.m = "V" /\ HasTop("briend")
     /\ LET r == Top.r
@@ -783,7 +783,7 @@ R_Fin ==
        ELSE IF b > n THEN Fail("RangeEndOutOfListBounds", loc, M_RangeEndOutOfListBounds(b, n))
        ELSE IF b - a # Len(c.ritems)
        THEN Fail("RangeIndexItemMismatch", loc, M_RangeIndexItemMismatch(b - a, Len(c.ritems)))
-       ELSE GoH(D(c.b.names), K,
+       ELSE GoH(CD(c.b.names), K,
                 [heap EXCEPT ![c.lid].items =
                     [i \in 1 .. n |-> IF i > a /\ i <= b THEN c.ritems[i - a] ELSE @[i]]])
 
@@ -802,7 +802,7 @@ B_List ==
             ELSE IF ~lhs.collect /\ nl # nr
             THEN Fail("ListDestructureItemMismatch", lhs.loc, M_ListDestructureItemMismatch(nl, nr))
             ELSE Go(BLC(c, 1, c.names), K)
-BL_Done == /\ c.m = "BL" /\ c.i > Len(c.b.lhs.items) /\ Go(D(c.names), K)
+BL_Done == /\ c.m = "BL" /\ c.i > Len(c.b.lhs.items) /\ Go(CD(c.names), K)
 BL_Item ==
     /\ c.m = "BL" /\ c.i <= Len(c.b.lhs.items)
     /\ LET b == c.b
@@ -814,9 +814,9 @@ BL_Item ==
        IF item.spread
        THEN Fail("SpreadInListDestructure", lhs.loc, M_SpreadInListDestructure(c.i - 1))
        ELSE IF lhs.collect /\ c.i = nl
-       THEN GoH(B(item.e, Slot(VList(NewId(heap))), NoOp, b.bt, c.names), Push(fr),
+       THEN GoH(CB(item.e, Slot(VList(NewId(heap))), NoOp, b.bt, c.names), Push(fr),
                 Append(heap, CList(SubSeq(xs, nl, Len(xs)))))              \* RestFresh
-       ELSE Go(B(item.e, xs[c.i], NoOp, b.bt, c.names), Push(fr))
+       ELSE Go(CB(item.e, xs[c.i], NoOp, b.bt, c.names), Push(fr))
 D_BList == /\ c.m = "D" /\ HasTop("blist") /\ Go(BLC(Top.b, Top.i + 1, c.names), Pop)
 
 \* {a, "K": p, ..rest}
@@ -827,7 +827,7 @@ B_Object ==
        ELSE IF c.rhs.v.k # "object"
        THEN Fail("ObjectDestructureOnNonObject", c.lhs.loc, M_ObjectDestructureOnNonObject(c.rhs.v))
        ELSE Go(BOC(c, 1, DOMAIN heap[c.rhs.v.id].props, c.names), K)
-BO_Done == /\ c.m = "BO" /\ c.i > Len(c.b.lhs.props) /\ Go(D(c.names), K)
+BO_Done == /\ c.m = "BO" /\ c.i > Len(c.b.lhs.props) /\ Go(CD(c.names), K)
 
 \* Bind pattern `p` to property `name` of the source object (a property named
 \* `_` is skipped without a presence check).
@@ -836,7 +836,7 @@ BindProp(b, i, rem, names, name, nameLoc, p, kk) ==
     IF name = N_us THEN Go(BOC(b, i + 1, rem \ {name}, names), kk)
     ELSE IF name \notin DOMAIN props
     THEN FailIn(kk, "PropNotFound", nameLoc, M_PropNotFound(name))
-    ELSE Go(B(p, props[name], NoOp, b.bt, names),
+    ELSE Go(CB(p, props[name], NoOp, b.bt, names),
             Append(kk, [f |-> "bobj", b |-> b, i |-> i, rem |-> rem \ {name}]))
 
 BO_Single ==
@@ -851,14 +851,14 @@ BO_Single ==
        ELSE IF item.collect THEN
            IF c.i # Len(b.lhs.props)
            THEN Fail("ObjectCollectIsNotLast", item.e.loc, M_ObjectCollectIsNotLast)
-           ELSE GoH(B(item.e, Slot(VObj(NewId(heap))), NoOp, b.bt, c.names),
+           ELSE GoH(CB(item.e, Slot(VObj(NewId(heap))), NoOp, b.bt, c.names),
                     Push([f |-> "bobj", b |-> b, i |-> c.i, rem |-> c.rem]),
                     Append(heap, CObj([key \in (c.rem \cap DOMAIN props) |-> props[key]])))
        ELSE BindProp(b, c.i, c.rem, c.names, item.e.name, item.e.loc, item.e, K)
 
 BO_Pair ==
     /\ c.m = "BO" /\ c.i <= Len(c.b.lhs.props) /\ c.b.lhs.props[c.i].t = "pair"
-    /\ Go(E(c.b.lhs.props[c.i].name),
+    /\ Go(CE(c.b.lhs.props[c.i].name),
           Push([f |-> "bobjname", b |-> c.b, i |-> c.i, rem |-> c.rem, names |-> c.names]))
 V_BObjName ==
     /\ c.m = "V" /\ HasTop("bobjname")
